@@ -125,7 +125,8 @@ type Interp struct {
 	specBase     int
 	specDefs     []*Term
 	pdoms        map[*ssa.Function]*postDom
-	mergeFail    map[*ssa.If]int
+	mergeStatic  map[*ssa.If]bool
+	fnHash       map[*ssa.Function]int
 	NoMerge      bool
 	Merges       int
 	SpecMaxSteps int64
@@ -152,6 +153,8 @@ type HarnessRun struct {
 	Funcs       map[string]bool
 	Samples     []string
 	PanicsSeen  map[string]int
+	Stops       int
+	StopMsgs    []string
 }
 
 type AssertStat struct {
@@ -181,7 +184,8 @@ func NewInterp(prog *ssa.Program, solver *Solver) *Interp {
 		MaxSteps: 20_000_000, MaxDecisions: 400, MaxDepth: 2000, MaxLoop: 64,
 		typeIDs:   map[string]uint64{},
 		pdoms:     map[*ssa.Function]*postDom{},
-		mergeFail: map[*ssa.If]int{},
+		mergeStatic: map[*ssa.If]bool{},
+		fnHash:      map[*ssa.Function]int{},
 		SpecMaxSteps: 50000,
 		implCache: map[[2]types.Type]bool{},
 		Opaque:    map[int]interface{}{},
@@ -373,10 +377,15 @@ func (in *Interp) decide(cond *Term) bool {
 	}
 	in.symSeq++
 	var d int
+	site := in.siteHash()
 	if in.pos < len(in.prefix) {
-		d = in.prefix[in.pos]
+		e := in.prefix[in.pos]
+		if e>>16 != site {
+			panic(&pathEnd{Kind: "diverged", Msg: "re-execution reached a different decision point than recorded (at " + in.where() + ")"})
+		}
+		d = e & 0xffff
 		in.pos++
-		in.decisions = append(in.decisions, d)
+		in.decisions = append(in.decisions, e)
 	} else {
 		if len(in.decisions) >= in.MaxDecisions {
 			panic(&pathEnd{Kind: "budget", Msg: "decision budget"})
@@ -394,7 +403,7 @@ func (in *Interp) decide(cond *Term) bool {
 		switch {
 		case rT != Unsat && rF != Unsat:
 			d = 1
-			sib := append(append([]int{}, in.decisions...), 0)
+			sib := append(append([]int{}, in.decisions...), 0|site<<16)
 			in.newSibs = append(in.newSibs, sib)
 		case rT != Unsat:
 			d = 1
@@ -402,7 +411,7 @@ func (in *Interp) decide(cond *Term) bool {
 			d = 0
 		}
 		in.pos++
-		in.decisions = append(in.decisions, d)
+		in.decisions = append(in.decisions, d|site<<16)
 		in.H.Decisions++
 	}
 	if d == 1 {
@@ -420,18 +429,45 @@ func (in *Interp) choose(n int) int {
 	}
 	in.specAbortIf("choose in region")
 	var d int
+	site := in.siteHash() ^ 0x5a5a
 	if in.pos < len(in.prefix) {
-		d = in.prefix[in.pos]
+		e := in.prefix[in.pos]
+		if e>>16 != site {
+			panic(&pathEnd{Kind: "diverged", Msg: "re-execution reached a different choice point than recorded (at " + in.where() + ")"})
+		}
+		d = e & 0xffff
 	} else {
 		d = 0
 		for k := n - 1; k >= 1; k-- {
-			sib := append(append([]int{}, in.decisions...), k)
+			sib := append(append([]int{}, in.decisions...), k|site<<16)
 			in.newSibs = append(in.newSibs, sib)
 		}
 	}
 	in.pos++
-	in.decisions = append(in.decisions, d)
+	in.decisions = append(in.decisions, d|site<<16)
 	return d
+}
+
+// siteHash identifies the current decision point (function, block).
+func (in *Interp) siteHash() int {
+	fr := in.curFrame
+	if fr == nil {
+		return 1
+	}
+	h, ok := in.fnHash[fr.fn]
+	if !ok {
+		x := uint32(2166136261)
+		for _, c := range []byte(fr.fn.String()) {
+			x = (x ^ uint32(c)) * 16777619
+		}
+		h = int(x & 0xffffff)
+		in.fnHash[fr.fn] = h
+	}
+	bi := 0
+	if fr.block != nil {
+		bi = fr.block.Index
+	}
+	return (h ^ (bi * 7919)) & 0xffffff
 }
 
 func (in *Interp) where() string {
